@@ -212,10 +212,11 @@ class ModuleTranslator:
                 raise Unsupported('missing argument ' + pname)
         if sig.modname != self.name:
             self.deps.add(sig.modname)
+        ft.sig.calls.add('%s:%s' % (sig.modname, sig.name))
         today = ''
         if sig.needs_today:
             ft.uses_today = True
-            today = ' today'
+            today = ' today__'
         return ('(← %s%s%s)' % (sig.lean_name, today, ''.join(' ' + a for a in args)), sig.rtype)
 
     def while_fuel(self, fname, st, ft):
@@ -416,7 +417,7 @@ def main():
         manifest['functions']['%s:%s' % (modname, fname)] = {
             'ok': sig.ok, 'lean': sig.lean_name, 'params': sig.params, 'ptypes': sig.ptypes,
             'defaults': {k: repr(v) for k, v in sig.defaults.items()},
-            'rtype': sig.rtype, 'today': sig.needs_today, 'reason': sig.reason}
+            'rtype': sig.rtype, 'today': sig.needs_today, 'reason': sig.reason, 'calls': sorted(sig.calls)}
         stats['ok' if sig.ok else 'fail'] += 1
         if not sig.ok:
             r = re.sub(r'[A-Za-z_.]*\d*__\d+', 'X', sig.reason or '')[:70]
